@@ -135,6 +135,9 @@ func cmdVerify(args []string) {
 		for _, se := range u.SpecErrs {
 			fmt.Println("    SPEC ERROR:", se)
 		}
+		for _, d := range u.Detached {
+			fmt.Println("    DETACHED:", d)
+		}
 		for _, o := range u.Obs {
 			if !filter(o) {
 				continue
